@@ -236,6 +236,8 @@ def _sends(rnd, ch, o, p):
         else:
             out.append(dict(kind='send', name=rnd.choice(ch['events'] + ['zz']),
                             delay=rnd.choice(o['delays'])))
+            if not out[-1]['delay'] and rnd.random() < 0.25:
+                out[-1]['zero'] = True      # the code says delay=0 explicitly (a computed delay that happens to be zero)
         p = p * 0.5
     return out
 
